@@ -332,6 +332,36 @@ theorem chainSorted_iff (l : List Iv) : chainSorted l = true ↔ SD l := by
     | nil => simp [chainSorted, SD]
     | cons b t' => simp only [chainSorted, SD, Bool.and_eq_true, decide_eq_true_eq, ih]
 
+/-- `is_valid_intron_chain` is exactly `Spaced` -/
+theorem validIntronChain_iff (ni : List Iv) : validIntronChain ni = true ↔ Spaced ni := by
+  induction ni with
+  | nil => simp [validIntronChain, intronsSpaced, Spaced]
+  | cons a t ih =>
+    cases t with
+    | nil => simp [validIntronChain, intronsSpaced, Spaced]
+    | cons b t' =>
+      simp only [validIntronChain, intronsSpaced, Spaced, List.all_cons, Bool.and_eq_true, decide_eq_true_eq] at ih ⊢
+      constructor
+      · rintro ⟨⟨ha, hall⟩, hg, hs⟩; exact ⟨ha, hg, ih.mp ⟨hall, hs⟩⟩
+      · rintro ⟨ha, hg, hsp⟩
+        obtain ⟨hall, hs⟩ := ih.mpr hsp
+        exact ⟨⟨ha, hall⟩, hg, hs⟩
+
+/-- the introns of a gapped exon list form a valid intron chain -/
+theorem junctions_spaced : ∀ (l : List Iv), Spaced l → Spaced (junctionsFromBlocks l)
+  | [], _ => trivial
+  | [_], _ => trivial
+  | [a, b], h => by
+    obtain ⟨_, h2, _⟩ := h
+    simp only [junctionsFromBlocks, h2, if_true, Spaced]
+    omega
+  | a :: b :: c :: t, h => by
+    obtain ⟨h1, h2, h3⟩ := h
+    have ih := junctions_spaced (b :: c :: t) h3
+    obtain ⟨h4, h5, _⟩ := h3
+    simp only [junctionsFromBlocks, h2, h5, if_true] at ih ⊢
+    refine ⟨by simp; omega, by simp; omega, ih⟩
+
 theorem validChain_iff (l : List Iv) : validChain l = true ↔ WFl l ∧ SD l := by
   simp only [validChain, Bool.and_eq_true, chainSorted_iff, List.all_eq_true, decide_eq_true_eq, WFl]
 
